@@ -725,7 +725,9 @@ class WrapperModel(Model):
                 outs.append(R(st, C(True)))
             return outs
         if is_bk(container):
-            return [R(st, ('ev', 'bkhas', self.newid()))]
+            v = ('ev', 'bkhas', self.newid())
+            st.emit('BKHAS', (container, item), line, val=v)
+            return [R(st, v)]
         return None
 
     # -- branching ---------------------------------------------------------------------------
